@@ -168,7 +168,9 @@ CLAIMS = {
         note="Partial at proof level: real schedules, RwLock fairness, the mpsc FIFO and flush order are the runtime's; the theorems are about the section structure, the bursts sample the runtime."),
     "C01": dict(
         technique="Coq proof over the handler model (per-target delivery = duplicate-free audience list minus the sender, via Forall2/NoDup) + differential traces and an audience oracle on the implementation's own state",
-        text="Theorems (props/C01.v) about the Gallina model of process_privmsg_notice, for ALL shared states, connections, target lists and texts: an accepted channel target queues "
+        text="AND NO COPY REACHES ANYBODY ELSE, as a whole step after any history (C01_message_step): a registered connection's PRIVMSG / NOTICE line leaves the state unchanged, closes nobody, and everything "
+             "sent in the step - to any connection - is the concatenation over the DISTINCT targets of what the one-target rule prescribes; there is no other delivery and no other line. "
+             "Theorems (props/C01.v) about the Gallina model of process_privmsg_notice, for ALL shared states, connections, target lists and texts: an accepted channel target queues "
              "exactly one copy for each member of the audience other than the sender - the queued lines are in one-to-one correspondence (Forall2) with a duplicate-free list whose "
              "elements are exactly audience minus sender - each to the connection owning that nick; a nick target goes to exactly the owner; the audience of a status-prefixed target is the "
              "union of the named rank lists; duplicate targets are handled once; the line is :source VERB target :text verbatim; state and connection are unchanged; and in every reachable world that source is nick!~user@host of the nick the user is registered under now, its user name and host - whatever the order of NICK and USER at registration and however many nick changes followed (C01_true_attribution, by a world invariant proved through all 41 commands, registration, teardown and KILL delivery: IRCP.IdentP). Statements are "
@@ -191,7 +193,8 @@ CLAIMS = {
         note="argon2 is outside the model: verify is a parameter; the driver instantiates it with hashes produced by the real argon2_hash_password."),
     "C10": dict(
         technique="Coq proof (can_send characterised by a boolean-reflection lemma over glob-based ban semantics; NOTICE silence by induction over the target fold) + flag x ban x rank sweep against the real server with a speaking-rule oracle",
-        text="GLOBAL: a user's away state changes only through its own AWAY command - over every event of every connection the away text of a record is that of the same connection's record before the step unless the event is that connection's AWAY line, and a new user is not away (C10_away_changes_only_by_own_away), so the text a PRIVMSG sender is told is the one the user itself sent last. Theorems (props/C10.v), for ALL channels, senders and sources: can_send holds iff (member or neither +n nor +s) and not (some ban mask globs the source and no exception does) and "
+        text="NOTICE IS NEVER ANSWERED, as a whole step after any history (C10_notice_step_silent): every line sent in the step of a NOTICE line, to the sender or anybody else, is the relayed NOTICE itself. "
+             "GLOBAL: a user's away state changes only through its own AWAY command - over every event of every connection the away text of a record is that of the same connection's record before the step unless the event is that connection's AWAY line, and a new user is not away (C10_away_changes_only_by_own_away), so the text a PRIVMSG sender is told is the one the user itself sent last. Theorems (props/C10.v), for ALL channels, senders and sources: can_send holds iff (member or neither +n nor +s) and not (some ban mask globs the source and no exception does) and "
              "(not +m or voice-or-higher), with mask matching proved equal to glob (C14); a channel target is delivered to the C01 audience iff can_send, otherwise nobody receives it and a "
              "PRIVMSG sender gets exactly one 404 (NOTICE: nothing); every line queued by a NOTICE command is the relayed NOTICE itself - no numeric, for all target lists (C10_notice_silent); "
              "PRIVMSG to an away user adds exactly the 301 with the away text, NOTICE does not; that text is the one of the user's LAST AWAY command - AWAY overwrites, AWAY without text clears, nothing else changes (C10_away_is_last_sent).",
